@@ -395,11 +395,15 @@ def run_one(case):
             except Exception:
                 pass
         held_first = None
-        for k in range(2):
+        for k in range(3):
             with structured((sum(case["rs"]) // 3) % 10 if sum(case["rs"]) % 2 else 0):
                 x = crandn(rng, ish, dt)
             if k == 1 and len(ish) >= 2:
                 x = np.asfortranarray(x)            # memory-layout variant
+            if k == 2:
+                # real data: a tree whose parts are real and complex (a*A + B with complex
+                # a, a real operator next to an FFT) still acts as its matrix expression
+                x = np.ascontiguousarray(x.real)
             STATE.peak = 0.0
             got = np.asarray(A(x))
             if k == 0:
@@ -427,7 +431,9 @@ def run_one(case):
             sc = nrm(ref) + 1e-3 * max(nrm(x), peak) + 1e13 * noise
             e = nrm(got - ref) / sc if sc > 0 else nrm(got - ref)
             worst = max(worst, e)
-            if not e <= tol:
+            # (real data: sigpy's fft / nufft convert non-complex input to complex64, so a
+            # tree holding one of them is only single-precision accurate on real data)
+            if not e <= (tol if k < 2 else max(tol, 2e-4)):
                 return violated(sig, "tree differs from the matrix expression of its parts: "
                                 "rel %.3g (tol %.1g)" % (e, tol), wit, mech="value",
                                 obs={"rel": e})
